@@ -27,6 +27,7 @@ type Tok struct {
 }
 
 // Inl is an inline node. K: t(ext) em st(rong) del code link sb(soft break) math
+// br (bracketed literal: "[S]", or "[text of C][S]" - a reference-style link WITHOUT a definition, i.e. plain text)
 // and the escape class: esc(\c) ent(&name;) auto(<url>) hb(hard break).
 type Inl struct {
 	K string `json:"k"`
@@ -42,23 +43,27 @@ type Item struct {
 
 // Blk is a block node. K: h p ul ol bq code hr tbl math.
 type Blk struct {
-	K      string    `json:"k"`
-	Level  int       `json:"level,omitempty"`
-	Setext bool      `json:"setext,omitempty"`
-	I      []Inl     `json:"i,omitempty"`
-	Items  []Item    `json:"items,omitempty"`
-	Loose  bool      `json:"loose,omitempty"`
-	Start  int       `json:"start,omitempty"`
-	Mark   string    `json:"mark,omitempty"` // bullet char or hr char
-	B      []Blk     `json:"b,omitempty"`
-	Fenced bool      `json:"fenced,omitempty"`
-	Tilde  bool      `json:"tilde,omitempty"`
-	Info   string    `json:"info,omitempty"`
-	Lines  []string  `json:"lines,omitempty"`
-	Aligns []string  `json:"aligns,omitempty"` // per column: "" left center right
-	Head   [][]Inl   `json:"head,omitempty"`
-	Rows   [][][]Inl `json:"rows,omitempty"`
-	S      string    `json:"s,omitempty"` // latex of a block formula
+	K      string `json:"k"`
+	Level  int    `json:"level,omitempty"`
+	Setext bool   `json:"setext,omitempty"`
+	I      []Inl  `json:"i,omitempty"`
+	Items  []Item `json:"items,omitempty"`
+	Loose  bool   `json:"loose,omitempty"`
+	Start  int    `json:"start,omitempty"`
+	Mark   string `json:"mark,omitempty"` // bullet char or hr char
+	B      []Blk  `json:"b,omitempty"`
+	Fenced bool   `json:"fenced,omitempty"`
+	// FIndent: a fenced block's fences are indented by 0-3 blanks. Lines are the RAW source lines; CommonMark
+	// removes up to FIndent columns of indentation from each (a tab counts to the next multiple of 4, the columns
+	// of a partly removed tab remain as blanks) - see dedent.
+	FIndent int       `json:"findent,omitempty"`
+	Tilde   bool      `json:"tilde,omitempty"`
+	Info    string    `json:"info,omitempty"`
+	Lines   []string  `json:"lines,omitempty"`
+	Aligns  []string  `json:"aligns,omitempty"` // per column: "" left center right
+	Head    [][]Inl   `json:"head,omitempty"`
+	Rows    [][][]Inl `json:"rows,omitempty"`
+	S       string    `json:"s,omitempty"` // latex of a block formula
 }
 
 type Case struct {
@@ -68,6 +73,10 @@ type Case struct {
 	Opts  Opts   `json:"opts"`
 	Toks  []Tok  `json:"toks,omitempty"`
 	Doc   []Blk  `json:"doc,omitempty"`
+	// Warm: Markdown documents converted first, in order, on the SAME Converter that then converts the judged
+	// input (a Converter is reusable: README converts a string and a file with one, BatchConvert many files).
+	// The expected result is that of the judged input alone.
+	Warm []string `json:"warm,omitempty"`
 }
 
 func (c Case) Bytes() []byte {
@@ -161,6 +170,11 @@ func mdOne(x Inl) string {
 			return ""
 		}
 		return "$" + x.S + "$"
+	case "br":
+		if in := mdInl(x.C); in != "" {
+			return "[" + in + "][" + x.S + "]"
+		}
+		return "[" + x.S + "]"
 	case "esc":
 		return "\\" + x.S
 	case "ent":
@@ -169,6 +183,39 @@ func mdOne(x Inl) string {
 		return "<" + x.S + ">"
 	}
 	return ""
+}
+
+func fenceIndent(b Blk) int {
+	if !b.Fenced || b.FIndent < 0 || b.FIndent > 3 {
+		return 0
+	}
+	return b.FIndent
+}
+
+// dedent removes up to n columns of leading white space from a line that starts in column 0 (CommonMark 4.5:
+// content lines of a fenced block whose opening fence is indented n blanks). A tab reaches to the next multiple
+// of 4; of a tab that is only partly removed the remaining columns stay, as blanks.
+func dedent(raw string, n int) string {
+	col, removed, i := 0, 0, 0
+	for i < len(raw) && removed < n {
+		switch raw[i] {
+		case ' ':
+			col++
+			removed++
+			i++
+		case '\t':
+			w := 4 - col%4
+			if removed+w > n {
+				return strings.Repeat(" ", w-(n-removed)) + raw[i+1:]
+			}
+			col += w
+			removed += w
+			i++
+		default:
+			return raw[i:]
+		}
+	}
+	return raw[i:]
 }
 
 func isList(b Blk) bool { return b.K == "ul" || b.K == "ol" }
@@ -219,6 +266,7 @@ func mdBlock(b Blk, afterList bool) []string {
 			if b.Tilde {
 				f = "~~~"
 			}
+			f = strings.Repeat(" ", fenceIndent(b)) + f
 			out := []string{f + b.Info}
 			out = append(out, b.Lines...)
 			return append(out, f)
@@ -425,6 +473,13 @@ func readInl(xs []Inl, f uint8) []ch {
 			out = append(out, strChars(x.S, f|fC)...)
 		case "math":
 			out = append(out, strChars(x.S, fAny)...)
+		case "br":
+			if in := readInl(x.C, f); len(collapse(in)) > 0 {
+				out = append(out, ch{'[', f})
+				out = append(out, collapse(in)...)
+				out = append(out, ch{']', f})
+			}
+			out = append(out, strChars("["+x.S+"]", f)...)
 		case "esc":
 			out = append(out, strChars(x.S, f)...)
 		case "ent":
@@ -465,7 +520,7 @@ func readBlk(b Blk, top int, out *[]xblk) {
 		*out = append(*out, xblk{kind: "p", cs: collapse(strChars(b.S, fAny)), top: top})
 	case "code":
 		for _, l := range b.Lines {
-			*out = append(*out, xblk{kind: "code", line: l, top: top})
+			*out = append(*out, xblk{kind: "code", line: dedent(l, fenceIndent(b)), top: top})
 		}
 	case "bq":
 		for _, c := range b.B {
